@@ -69,6 +69,13 @@ MUTANTS = [
     ("shape transposed", "AegeanTools/BANE.py",
      "    shape = (header['NAXIS2'], header['NAXIS1'])",
      "    shape = (header['NAXIS1'], header['NAXIS2'])", "C06-R5"),
+    ("background rounded to float32 before the subtraction (seed C06c)",
+     "AegeanTools/BANE.py",
+     "interp_bkg = np.array(ifunc((gr, gc)), dtype=np.float64)",
+     "interp_bkg = np.array(ifunc((gr, gc)), dtype=np.float32)", "C06-R6"),
+    ("block kept in single precision", "AegeanTools/BANE.py",
+     "    data = data.astype(np.float64)",
+     "    data = data.astype(np.float32)", "C06-R6"),
 ]
 TWINS = [
     ("explicit full slice", "AegeanTools/BANE.py",
@@ -540,3 +547,105 @@ def run(ctx):
               "(header['NAXIS2'],header['NAXIS1'])",
               "numpy arrays are (rows=NAXIS2, columns=NAXIS1)",
               node=shp[0] if shp else fimg.node)
+    r6_precision(ctx, prog)
+
+
+NARROW = {"numpy.float32", "numpy.float16", "numpy.half", "numpy.single"}
+NARROW_STR = {"f4", "<f4", ">f4", "float32", "f2", "float16", "e", "f",
+              "single", "half"}
+WIDE = {"numpy.float64", "numpy.double", "float", "numpy.longdouble",
+        "numpy.float128"}
+
+
+def r6_precision(ctx, prog):
+    """everything between the load and the final cast is double precision"""
+    ctx.rule("C06-R6", "precision: the worker computes, stores and subtracts "
+             "in float64 -- no narrower dtype appears in sigma_filter / "
+             "sigmaclip; the shared buffers are float64 in worker and parent; "
+             "the only narrowing is the final cast of the returned maps "
+             "(a background rounded to float32 before it is subtracted "
+             "turns a large DC level into saw-tooth noise)")
+    parent = prog.func("BANE.filter_mc_sharemem")
+    n = 0
+
+    def narrow_uses(fi):
+        mod = prog.modules[fi.module]
+        out = []
+        for x in ast.walk(fi.node):
+            if isinstance(x, (ast.Attribute, ast.Name)):
+                d = prog.dotted(mod, x) if isinstance(x, ast.Attribute) \
+                    else prog.resolve_name(mod, x.id)
+                if d in NARROW:
+                    out.append(x)
+            if isinstance(x, ast.Call):
+                for k in x.keywords:
+                    if k.arg == "dtype" and isinstance(k.value, ast.Constant)\
+                            and k.value.value in NARROW_STR:
+                        out.append(k.value)
+                if isinstance(x.func, ast.Attribute) and \
+                        x.func.attr == "astype" and x.args and \
+                        isinstance(x.args[0], ast.Constant) and \
+                        x.args[0].value in NARROW_STR:
+                    out.append(x.args[0])
+        return out
+    for short in ("BANE.sigma_filter", "BANE.sigmaclip", "BANE._sf2"):
+        if not prog.has_func(short):
+            continue
+        fi = prog.func(short)
+        uses = narrow_uses(fi)
+        n += 1
+        ctx.check("C06-R6", fi, "no narrow float dtype in " + short,
+                  not uses, "a dtype narrower than float64 is used in the "
+                  "worker (%s): intermediate maps lose the digits a large "
+                  "background level needs" %
+                  [norm(_stmt_of(fi.node, u), 70) for u in uses[:3]],
+                  node=uses[0] if uses else fi.node)
+    # shared buffers
+    for fi in (prog.func("BANE.sigma_filter"), parent):
+        mod = prog.modules[fi.module]
+        for c in ast.walk(fi.node):
+            if isinstance(c, ast.Call) and prog.dotted(mod, c.func) == \
+                    "numpy.ndarray" and kwarg(c, "buffer") is not None:
+                dt = kwarg(c, "dtype")
+                d = prog.dotted(mod, dt) if isinstance(
+                    dt, ast.Attribute) else (norm(dt) if dt is not None
+                                             else None)
+                n += 1
+                ctx.check("C06-R6", fi, "shared buffer dtype " + norm(c, 60),
+                          d in WIDE, "the shared maps must be float64 views "
+                          "(found dtype %s)" % d, node=c)
+    # the parent narrows only in the statements that build the returned maps
+    rets = [s_ for s_ in walk_no_nested(parent.node)
+            if isinstance(s_, ast.Return) and s_.value is not None]
+    returned = set()
+    for r in rets:
+        returned |= names_in(r.value)
+    for u in narrow_uses(parent):
+        st = _stmt_of(parent.node, u)
+        ok = isinstance(st, ast.Assign) and len(st.targets) == 1 and \
+            norm(st.targets[0]) in returned and \
+            isinstance(st.value, ast.Call) and \
+            isinstance(st.value.func, ast.Attribute) and \
+            st.value.func.attr == "astype"
+        n += 1
+        ctx.check("C06-R6", parent, "narrowing " + norm(st, 70), ok,
+                  "float32 may only appear as the final cast of a returned "
+                  "map", node=st)
+    nb = [s_ for s_ in walk_no_nested(parent.node) if isinstance(s_, ast.Assign)
+          and norm(s_.targets[0]) == "nbytes"]
+    if nb:
+        n += 1
+        txt = norm(nb[0].value)
+        ctx.check("C06-R6", parent, "segment size " + txt,
+                  "float64" in txt or "* 8" in txt or "8 *" in txt,
+                  "the shared segments must hold float64 values", node=nb[0])
+    ctx.floor("C06-R6", n, 6, "dtype sites in the BANE pipeline")
+
+
+def _stmt_of(fnode, node):
+    for st in ast.walk(fnode):
+        if isinstance(st, ast.stmt) and not isinstance(
+                st, (ast.FunctionDef, ast.If, ast.For, ast.While, ast.With,
+                     ast.Try)) and any(x is node for x in ast.walk(st)):
+            return st
+    return node
